@@ -1,38 +1,572 @@
 package main
 
+// Generators of property C20.  Every random choice comes from g.R.
+//
+//   c20.quote    raw byte strings            -> quote
+//   c20.unq      escaped string bodies       -> unq          (valid and malformed, separately produced)
+//   c20.html     JSON-ish text + dst prefix  -> html
+//   c20.utf8     byte strings                -> utf8v, utf8c
+//   c20.marshal  raw byte strings            -> mstr <shape> <cfg>
+//   c20.unmarshal escaped bodies             -> ustr <shape> <cfg>
+
+import (
+	"fmt"
+)
+
 // randBytes: byte strings that mix ASCII, characters with special treatment in
 // quoting/escaping, multi-byte UTF-8 and ill-formed UTF-8.
 func randBytes(g *Gen, maxLen int) []byte {
-	n := g.R.Intn(maxLen + 1)
+	return randBytesN(g, g.R.Intn(maxLen+1))
+}
+
+var specialBytes = []byte{'"', '\\', '<', '>', '&', '\n', 0, 0x1f, 0x7f, '\t', '\r', 8, 12, '/', 0x20, 0xe2, 0x80, 0xa8, 0xa9}
+var utf8Pieces = []string{"\u00e9", "\u4e2d", "\U0001f600", "\u2028", "\u2029", "\ufffd", "\xed\xa0\x80", "\xf4\x90\x80\x80", "\xc0\x80", "\xe0\x80",
+	"\xe2\x80", "\xe2", "\xe2\x80\xa7", "\xe2\x80\xaa", "\xe2\x81\xa8", "\xf0\x90\x80\x80", "\xf4\x8f\xbf\xbf", "\xef\xbf\xbf", "\xdf\xbf", "\xc2\x80",
+	"\xe0\xa0\x80", "\xed\x9f\xbf", "\xee\x80\x80", "\xf0\x8f\xbf\xbf", "\xf5\x80\x80\x80", "\xff", "\xfe", "\xc1\xbf", "\x80", "\xbf"}
+
+// randBytesN: about n bytes (a multi-byte piece at the end may be cut to hit n exactly)
+func randBytesN(g *Gen, n int) []byte {
 	b := make([]byte, 0, n+4)
+	mode := g.R.Intn(6)
 	for len(b) < n {
-		switch g.R.Intn(10) {
+		k := g.R.Intn(10)
+		if mode == 0 { // mostly plain: long runs for the vector loops
+			if k < 9 {
+				k = 9
+			}
+		}
+		if mode == 1 && k > 2 { // dense in special characters: destination fills up
+			k = 1
+		}
+		switch k {
 		case 0:
 			b = append(b, byte(g.R.Intn(256)))
 		case 1:
-			b = append(b, []byte{'"', '\\', '<', '>', '&', '\n', 0, 0x1f, 0x7f, '\t', '\r', 8, 12, '/'}[g.R.Intn(14)])
+			b = append(b, specialBytes[g.R.Intn(len(specialBytes))])
 		case 2:
-			b = append(b, []byte([]string{"é", "中", "😀", " ", " ", "�", "\xed\xa0\x80", "\xf4\x90\x80\x80", "\xc0\x80", "\xe0\x80", "\xe2\x80", "\xe2"}[g.R.Intn(12)])...)
+			b = append(b, utf8Pieces[g.R.Intn(len(utf8Pieces))]...)
 		default:
 			b = append(b, byte(0x20+g.R.Intn(0x5f)))
 		}
 	}
-	return b
+	return b[:n]
+}
+
+// interesting single bytes: boundaries of every class the routines distinguish
+var edgeBytes = []byte{0, 1, 8, 9, 10, 12, 13, 0x1f, 0x20, '"', '&', '/', '0', '9', '<', '>', 'A', 'F', 'G', '\\', 'a', 'b', 'f', 'g', 'n', 'r', 't', 'u', 0x7f,
+	0x80, 0x8f, 0x90, 0x9f, 0xa0, 0xa8, 0xa9, 0xbf, 0xc0, 0xc1, 0xc2, 0xdf, 0xe0, 0xe2, 0xed, 0xef, 0xf0, 0xf4, 0xf5, 0xff}
+
+// all strings of one byte and of two bytes (thorough: all 65,536 pairs; quick: every pair of edge bytes
+// plus a stride sample of the rest)
+func smallStrings(g *Gen, emit func([]byte)) {
+	emit(nil)
+	for c := 0; c < 256; c++ {
+		emit([]byte{byte(c)})
+	}
+	if g.Tier == "thorough" {
+		for a := 0; a < 256; a++ {
+			for b := 0; b < 256; b++ {
+				emit([]byte{byte(a), byte(b)})
+			}
+		}
+		return
+	}
+	for _, a := range edgeBytes {
+		for _, b := range edgeBytes {
+			emit([]byte{a, b})
+		}
+	}
+	off := g.R.Intn(53)
+	for k := off; k < 65536; k += 53 {
+		emit([]byte{byte(k >> 8), byte(k)})
+	}
+}
+
+// every length 0..300 (every residue modulo 16 and 32, several times), random content
+func lengthSweep(g *Gen, emit func([]byte)) {
+	for n := 0; n <= 300; n++ {
+		emit(randBytesN(g, n))
+	}
+}
+
+// `piece` placed at every offset of a 32-byte block (and the block behind it) inside plain filler, for
+// total lengths around the vector widths
+func positionSweep(g *Gen, pieces [][]byte, emit func([]byte)) {
+	totals := []int{31, 32, 33, 48, 63, 64, 65, 96, 100}
+	for _, p := range pieces {
+		for pos := 0; pos < 66; pos++ {
+			total := totals[g.R.Intn(len(totals))]
+			if total < pos+len(p) {
+				total = pos + len(p) + g.R.Intn(3)
+			}
+			b := make([]byte, 0, total)
+			for len(b) < pos {
+				b = append(b, byte('a'+g.R.Intn(26)))
+			}
+			b = append(b, p...)
+			for len(b) < total {
+				b = append(b, byte('a'+g.R.Intn(26)))
+			}
+			emit(b)
+		}
+	}
+}
+
+func rawPieces() [][]byte {
+	ps := [][]byte{}
+	for _, c := range []byte{'"', '\\', 0, '\n', '\t', '\r', 0x1f, '<', '>', '&', 0x7f, 0x80, 0xff} {
+		ps = append(ps, []byte{c})
+	}
+	for _, s := range []string{"\u2028", "\u2029", "\xe2\x80", "\xe2", "\u00e9", "\U0001f600", "\xed\xa0\x80", "\"\"", "\\\"", "\x00\x01\x02\x03\x04\x05\x06\x07"} {
+		ps = append(ps, []byte(s))
+	}
+	return ps
+}
+
+// long inputs: the destination of Quote / HTMLEscape is grown several times, vector loops run long
+func longStrings(g *Gen, emit func([]byte)) {
+	sizes := []int{1000, 4097, 9000}
+	if g.Tier == "thorough" {
+		sizes = append(sizes, 20000, 70001)
+	}
+	for _, n := range sizes {
+		emit(randBytesN(g, n))
+		d := make([]byte, n) // nothing but characters that expand 6x
+		for i := range d {
+			d[i] = []byte{0, '"', '<', 0x1f, '\\', '&'}[g.R.Intn(6)]
+		}
+		emit(d)
+	}
+}
+
+/* ---------- escaped bodies (input of unquote) ---------- */
+
+const hexLower = "0123456789abcdef"
+const hexUpper = "0123456789ABCDEF"
+
+func hex4(g *Gen, v int) string {
+	d := hexLower
+	out := make([]byte, 4)
+	for i := 0; i < 4; i++ {
+		if g.R.Intn(3) == 0 {
+			d = hexUpper
+		} else {
+			d = hexLower
+		}
+		out[i] = d[(v>>(12-4*uint(i)))&15]
+	}
+	return string(out)
+}
+
+// a string body that denotes the (valid UTF-8) text t, with randomly chosen escape forms
+func escapeBody(g *Gen, t string) []byte {
+	out := []byte{}
+	for _, r := range t {
+		switch {
+		case r == '"':
+			out = append(out, `\"`...)
+		case r == '\\':
+			out = append(out, `\\`...)
+		case r == '/' && g.R.Intn(2) == 0:
+			out = append(out, `\/`...)
+		case r == '\b' && g.R.Intn(2) == 0:
+			out = append(out, `\b`...)
+		case r == '\f' && g.R.Intn(2) == 0:
+			out = append(out, `\f`...)
+		case r == '\n' && g.R.Intn(2) == 0:
+			out = append(out, `\n`...)
+		case r == '\r' && g.R.Intn(2) == 0:
+			out = append(out, `\r`...)
+		case r == '\t' && g.R.Intn(2) == 0:
+			out = append(out, `\t`...)
+		case r < 0x20 || g.R.Intn(8) == 0:
+			if r >= 0x10000 {
+				v := int(r) - 0x10000
+				out = append(out, `\u`+hex4(g, 0xd800+(v>>10))+`\u`+hex4(g, 0xdc00+(v&0x3ff))...)
+			} else {
+				out = append(out, `\u`+hex4(g, int(r))...)
+			}
+		default:
+			out = append(out, string(r)...)
+		}
+	}
+	return out
+}
+
+var textPieces = []string{"a", "b", " ", "x", "0", "\"", "\\", "/", "\b", "\f", "\n", "\r", "\t", "\x00", "\x1f", "<", ">", "&", "\u00e9", "\u4e2d", "\U0001f600", "\u2028", "\u2029",
+	"\ufffd", "\U00010000", "\U0010ffff", "\ud7ff", "\ue000", "\uffff", "\x7f", "\u0080", "\u07ff", "\u0800"}
+
+func randText(g *Gen, n int) string {
+	s := ""
+	for len(s) < n {
+		if g.R.Intn(3) == 0 {
+			s += textPieces[g.R.Intn(len(textPieces))]
+		} else {
+			s += string(rune(0x20 + g.R.Intn(0x5f)))
+		}
+	}
+	return s
+}
+
+var surrogateEdges = []int{0x0000, 0x0041, 0x007f, 0x0080, 0x07ff, 0x0800, 0xd7ff, 0xd800, 0xd801, 0xdabc, 0xdbfe, 0xdbff, 0xdc00, 0xdc01, 0xdead, 0xdffe, 0xdfff, 0xe000, 0xfffd, 0xffff}
+
+// well-formed bodies (every backslash starts a legal escape), including every pairing of code units on
+// the surrogate boundaries
+func validBodies(g *Gen, n int, emit func([]byte)) {
+	for _, a := range surrogateEdges {
+		emit([]byte(`\u` + hex4(g, a)))
+		emit([]byte(`x\u` + hex4(g, a) + `y`))
+		for _, b := range surrogateEdges {
+			emit([]byte(`\u` + hex4(g, a) + `\u` + hex4(g, b)))
+			emit([]byte(`\u` + hex4(g, a) + `\u` + hex4(g, b) + `\u` + hex4(g, surrogateEdges[g.R.Intn(len(surrogateEdges))])))
+			emit([]byte(`\u` + hex4(g, a) + `z\u` + hex4(g, b)))
+			emit([]byte(`\u` + hex4(g, a) + `\n\u` + hex4(g, b)))
+		}
+	}
+	// all 65,536 quads (thorough) or a stride sample
+	step := 97
+	if g.Tier == "thorough" {
+		step = 1
+	}
+	for v := g.R.Intn(step); v < 65536; v += step {
+		emit([]byte(fmt.Sprintf(`\u%04x`, v)))
+		if v >= 0xd800 && v < 0xdc00 {
+			emit([]byte(fmt.Sprintf(`\u%04x\u%04X`, v, 0xdc00+g.R.Intn(0x400))))
+		}
+	}
+	for _, e := range []string{`\"`, `\\`, `\/`, `\b`, `\f`, `\n`, `\r`, `\t`} {
+		emit([]byte(e))
+		emit([]byte(e + e))
+		emit([]byte("a" + e + "b"))
+	}
+	for i := 0; i < n; i++ {
+		m := 40
+		if i%8 == 0 {
+			m = 300
+		}
+		emit(escapeBody(g, randText(g, g.R.Intn(m+1))))
+	}
+	// every length, escapes at every block offset
+	for l := 0; l <= 300; l += 1 + g.R.Intn(2) {
+		b := escapeBody(g, randText(g, l))
+		emit(b)
+	}
+	ps := [][]byte{}
+	for _, s := range []string{`\n`, `\"`, `\\`, `\u0041`, `\u00e9`, `\u4e2d`, `\ud83d\ude00`, `\ud800`, `\udc00`, `\ud800\ud800`, `\ud800x`, `\/`} {
+		ps = append(ps, []byte(s))
+	}
+	positionSweep(g, ps, emit)
+}
+
+// malformed bodies: truncated escapes, illegal escape letters, bad hex digits, surrogate halves with a
+// broken second escape; alone and at every block offset
+func malformedBodies(g *Gen, n int, emit func([]byte)) {
+	for c := 0; c < 256; c++ { // every byte after a backslash
+		emit([]byte{'\\', byte(c)})
+		emit([]byte{'a', '\\', byte(c), 'b', 'c', 'd', 'e'})
+	}
+	for pos := 0; pos < 4; pos++ { // every byte at every hex position
+		for c := 0; c < 256; c++ {
+			q := []byte(`\u00e9`)
+			q[2+pos] = byte(c)
+			emit(q)
+			q2 := []byte(`\ud83d\ude00`)
+			q2[8+pos] = byte(c)
+			emit(q2)
+		}
+	}
+	trunc := []string{`\`, `\u`, `\u1`, `\u12`, `\u123`, `\ud800\`, `\ud800\u`, `\ud800\ud`, `\ud800\udc0`, `\ud800\udc`, `\ud800\x`, `\ud800\n`,
+		`\ud800\u12g4`, `\udbff\udbff\udbff`, `\ud800A`, `\x41`, `\U0041`, `\ `, "\\\x00", `\u00zz`, `\u+123`, `\u 123`, `\u-123`, `\u00e`, `\'`, `\a`, `\v`, `\0`, `\e`}
+	ps := [][]byte{}
+	for _, s := range trunc {
+		emit([]byte(s))
+		emit([]byte("abc" + s))
+		emit([]byte(s + "abc"))
+		ps = append(ps, []byte(s))
+	}
+	positionSweep(g, ps, emit)
+	// tails: a truncated escape at the very end of strings of every length
+	for l := 0; l < 70; l++ {
+		b := escapeBody(g, randText(g, l))
+		emit(append(b, trunc[g.R.Intn(12)]...))
+	}
+	// random mutations of valid bodies
+	for i := 0; i < n; i++ {
+		b := escapeBody(g, randText(g, g.R.Intn(60)))
+		if len(b) == 0 {
+			b = []byte(`\n`)
+		}
+		for k := 0; k <= g.R.Intn(3); k++ {
+			switch g.R.Intn(4) {
+			case 0:
+				b[g.R.Intn(len(b))] = byte(g.R.Intn(256))
+			case 1:
+				p := g.R.Intn(len(b) + 1)
+				b = append(b[:p:p], append([]byte{'\\'}, b[p:]...)...)
+			case 2:
+				b = b[:g.R.Intn(len(b)+1)]
+				if len(b) == 0 {
+					b = []byte(`\`)
+				}
+			case 3:
+				p := g.R.Intn(len(b))
+				b = append(b[:p:p], b[p+1:]...)
+				if len(b) == 0 {
+					b = []byte(`\u`)
+				}
+			}
+		}
+		emit(b)
+	}
+}
+
+// escape once more: the body of a literal whose content is the literal `"`+b+`"` (the `,string` form)
+func escapeAgain(b []byte) []byte {
+	out := make([]byte, 0, len(b)+8)
+	for _, c := range b {
+		if c == '"' || c == '\\' {
+			out = append(out, '\\')
+		}
+		out = append(out, c)
+	}
+	return out
 }
 
 func init() {
 	registerGen("c20.quote", func(g *Gen) {
-		// exhaustive single bytes first, then a length sweep, then random
-		for c := 0; c < 256; c++ {
-			g.Emit("quote", hexArg([]byte{byte(c)}))
-		}
-		g.Emit("quote", "-")
+		emit := func(b []byte) { g.Emit("quote", hexArg(b)) }
+		smallStrings(g, emit)
+		lengthSweep(g, emit)
+		positionSweep(g, rawPieces(), emit)
+		longStrings(g, emit)
 		for i := 0; i < g.N; i++ {
 			m := 100
 			if i%10 == 0 {
 				m = 300
 			}
-			g.Emit("quote", hexArg(randBytes(g, m)))
+			emit(randBytes(g, m))
+		}
+	})
+
+	registerGen("c20.unq", func(g *Gen) {
+		emit := func(b []byte) { g.Emit("unq", hexArg(b)) }
+		smallStrings(g, emit)
+		validBodies(g, g.N, emit)
+		lengthSweep(g, emit) // raw bytes: whatever is not a backslash is copied
+	})
+	registerGen("c20.unqbad", func(g *Gen) {
+		emit := func(b []byte) { g.Emit("unq", hexArg(b)) }
+		malformedBodies(g, g.N, emit)
+		if g.Tier == "thorough" { // backslash in front of every pair
+			for a := 0; a < 256; a++ {
+				for b := 0; b < 256; b++ {
+					emit([]byte{'\\', byte(a), byte(b)})
+				}
+			}
+		}
+	})
+
+	registerGen("c20.html", func(g *Gen) {
+		emitWith := func(spare int, dst, src []byte) { g.Emit("html", itoa(spare), hexArg(dst), hexArg(src)) }
+		spareFor := func(src []byte) int {
+			switch g.R.Intn(8) {
+			case 0:
+				return 0
+			case 1:
+				return g.R.Intn(8)
+			case 2:
+				return len(src)
+			case 3:
+				return len(src) + 63
+			case 4:
+				return len(src) + 64
+			case 5:
+				return len(src) + 65
+			case 6:
+				return len(src)*6 + 70
+			}
+			return g.R.Intn(2*len(src) + 80)
+		}
+		emit := func(src []byte) {
+			// a prefix short enough for the growth rule of spec.go:131 (see known finding C20-html-long-prefix)
+			dst := randBytesN(g, g.R.Intn(60))
+			emitWith(spareFor(src), dst, src)
+		}
+		smallStrings(g, emit)
+		lengthSweep(g, emit)
+		ps := [][]byte{}
+		for _, s := range []string{"<", ">", "&", "\u2028", "\u2029", "\xe2\x80", "\xe2", "\xe2\x80\xa7", "\xe2\x80\xaa", "\xe2\x81\xa8", "\xe2\xe2\x80\xa8", "<>&", "\xa8", "\xe2\x80\xa8\xe2\x80\xa9"} {
+			ps = append(ps, []byte(s))
+		}
+		positionSweep(g, ps, emit)
+		longStrings(g, emit)
+		for i := 0; i < g.N; i++ {
+			emit(randBytes(g, 200))
+		}
+		// JSON documents, the intended input
+		for i := 0; i < g.N/4; i++ {
+			doc := []byte(`{"a<b":["` + string(escapeBody(g, randText(g, g.R.Intn(40)))) + `",1.5e3,true,null],"&":"\u2028"}`)
+			emit(doc)
+		}
+		// long destination prefixes (the growth rule computes the new capacity from len(src) alone)
+		for i := 0; i < 40; i++ {
+			src := randBytes(g, 20)
+			dl := 60 + g.R.Intn(300)
+			emitWith(spareFor(src), randBytesN(g, dl), src)
+		}
+		for _, dl := range []int{64, 65, 66, 67, 100, 1000} {
+			emitWith(0, randBytesN(g, dl), []byte("a"))
+			emitWith(0, randBytesN(g, dl), []byte("<"))
+			emitWith(0, randBytesN(g, dl), nil)
+			emitWith(64, randBytesN(g, dl), []byte("a"))
+			emitWith(65, randBytesN(g, dl), []byte("a"))
+		}
+	})
+
+	registerGen("c20.utf8", func(g *Gen) {
+		repls := []string{"\ufffd", `\ufffd`, "?", "", "<?>", "\xff"}
+		emit := func(b []byte) {
+			g.Emit("utf8v", hexArg(b))
+			dst := randBytesN(g, g.R.Intn(5))
+			g.Emit("utf8c", hexArg([]byte(repls[g.R.Intn(len(repls))])), hexArg(dst), hexArg(b))
+		}
+		smallStrings(g, emit)
+		// three- and four-byte sequences around every boundary of the well-formedness table
+		lead3 := []byte{0xdf, 0xe0, 0xe1, 0xec, 0xed, 0xee, 0xef, 0xf0}
+		c1 := []byte{0x7f, 0x80, 0x8f, 0x90, 0x9f, 0xa0, 0xbf, 0xc0}
+		c2 := []byte{0x00, 0x7f, 0x80, 0xbf, 0xc0, 0xff}
+		for _, a := range lead3 {
+			for _, b := range c1 {
+				for _, c := range c2 {
+					emit([]byte{a, b, c})
+					emit([]byte{a, b, c, 'x'})
+				}
+			}
+		}
+		lead4 := []byte{0xef, 0xf0, 0xf1, 0xf3, 0xf4, 0xf5, 0xf7, 0xf8, 0xff}
+		for _, a := range lead4 {
+			for _, b := range c1 {
+				for _, c := range c2 {
+					for _, d := range c2 {
+						emit([]byte{a, b, c, d})
+					}
+				}
+			}
+		}
+		lengthSweep(g, emit)
+		ps := [][]byte{}
+		for _, s := range []string{"\u00e9", "\u4e2d", "\U0001f600", "\xff", "\x80", "\xc0\x80", "\xed\xa0\x80", "\xf4\x90\x80\x80", "\xe2\x80", "\xf0\x9f\x98", "\xf0\x9f", "\xf0", "\xc3"} {
+			ps = append(ps, []byte(s))
+		}
+		positionSweep(g, ps, emit)
+		// truncated sequences at the very end, every length
+		for l := 0; l < 70; l++ {
+			b := []byte(randText(g, l))
+			emit(append(b, ps[7+g.R.Intn(6)]...))
+		}
+		for i := 0; i < g.N; i++ {
+			if i%3 == 0 {
+				emit([]byte(randText(g, g.R.Intn(200))))
+			} else {
+				emit(randBytes(g, 200))
+			}
+		}
+		longStrings(g, emit)
+		// more ill-formed bytes than the position list of one native call holds (4096)
+		bad := make([]byte, 9001)
+		for i := range bad {
+			bad[i] = []byte{0xff, 0x80, 'a', 0xc0}[g.R.Intn(4)]
+		}
+		emit(bad)
+		allbad := make([]byte, 4097)
+		for i := range allbad {
+			allbad[i] = 0xff
+		}
+		emit(allbad)
+		emit(allbad[:4096])
+		emit(allbad[:4095])
+	})
+
+	registerGen("c20.marshal", func(g *Gen) {
+		shapes := []string{"v", "i", "f", "fs", "k", "a"}
+		cfgs := []string{"d", "s", "h", "v"}
+		k := 0
+		emit := func(b []byte) {
+			// rotate through all shape/configuration pairs
+			sh := shapes[k%len(shapes)]
+			cf := cfgs[(k/len(shapes))%len(cfgs)]
+			k++
+			if sh == "a" {
+				cf = "d"
+			}
+			g.Emit("mstr", sh, cf, hexArg(b))
+		}
+		all := func(b []byte) {
+			for _, sh := range shapes {
+				for _, cf := range cfgs {
+					if sh == "a" && cf != "d" {
+						continue
+					}
+					g.Emit("mstr", sh, cf, hexArg(b))
+				}
+			}
+		}
+		all(nil)
+		for c := 0; c < 256; c++ {
+			all([]byte{byte(c)})
+		}
+		for _, s := range []string{"\u2028", "\u2029", "\xe2\x80", "<\xff>", "\"\\", "\xed\xa0\x80"} {
+			all([]byte(s))
+		}
+		if g.Tier == "thorough" {
+			smallStrings(g, emit)
+		} else {
+			for _, a := range edgeBytes {
+				for _, b := range edgeBytes {
+					emit([]byte{a, b})
+				}
+			}
+		}
+		lengthSweep(g, emit)
+		positionSweep(g, rawPieces(), emit)
+		longStrings(g, emit)
+		for i := 0; i < g.N; i++ {
+			emit(randBytes(g, 200))
+		}
+	})
+
+	registerGen("c20.unmarshal", func(g *Gen) {
+		shapes := []string{"v", "i", "f", "fs"}
+		cfgs := []string{"d", "s", "u"}
+		k := 0
+		emit := func(b []byte) {
+			sh := shapes[k%len(shapes)]
+			cf := cfgs[(k/len(shapes))%len(cfgs)]
+			k++
+			if sh == "fs" {
+				if g.R.Intn(8) != 0 {
+					b = escapeAgain(b)
+				}
+			}
+			g.Emit("ustr", sh, cf, hexArg(b))
+		}
+		for c := 0; c < 256; c++ {
+			for _, sh := range shapes {
+				for _, cf := range cfgs {
+					g.Emit("ustr", sh, cf, hexArg([]byte{byte(c)}))
+					g.Emit("ustr", sh, cf, hexArg([]byte{'\\', byte(c)}))
+					if sh == "fs" {
+						g.Emit("ustr", sh, cf, hexArg([]byte{'\\', '\\', byte(c)}))
+						g.Emit("ustr", sh, cf, hexArg([]byte{'\\', '\\', '\\', byte(c)}))
+					}
+				}
+			}
+		}
+		validBodies(g, g.N, emit)
+		malformedBodies(g, g.N/2, emit)
+		lengthSweep(g, emit)
+		for _, n := range []int{1000, 9000} {
+			emit(escapeBody(g, randText(g, n)))
 		}
 	})
 }
